@@ -37,7 +37,20 @@ type Op struct {
 	Key  int    `json:"key,omitempty"`  // index into the key alphabet (taken modulo Keys)
 	Var  int    `json:"var,omitempty"`  // ecache: which of the colliding PKs (modulo NVariants)
 	Fail bool   `json:"fail,omitempty"` // g: the create function, if it gets called by this op, fails
+	// Nested (g only): a short program (at most MaxNested calls of g/r/c) which the create function, if it
+	// gets called by this op, executes on the same cache (single goroutine, the cache lock is not held
+	// while the create function runs) before it returns its own outcome. The key of a nested g/r is the
+	// first key index >= Key (cyclically) that is not being created on the current call stack - never
+	// a key in flight, the single-flight table would make that call wait for itself; a nested call for
+	// which no such key exists is skipped. A nested g may carry its own Nested up to MaxDepth levels.
+	Nested []Op `json:"nested,omitempty"`
 }
+
+// Limits of the re-entrant programs.
+const (
+	MaxNested = 2
+	MaxDepth  = 2
+)
 
 // Case is a configuration plus a call sequence. The executed sequence is Ops repeated
 // max(1,Repeat) times; in repetition r every key index is shifted by r*Stride (mod Keys), which
@@ -75,6 +88,10 @@ type Info struct {
 	ExpiredReplaced      bool // expirable: stale item replaced
 	ExpiredRecreateFail  bool // expirable: stale item touched, re-creation failed
 	ExpiredEvicted       bool // expirable: a stale item left by eviction/Remove/Clear
+	NestedCalls          int  // calls made from inside the create function
+	NestedDepth2         bool // a nested call made from inside a nested creation
+	NestedChanged        bool // a nested call inserted or removed an entry
+	ReentrantWindow      bool // an insertion evicted although the cache was not full when the miss was detected
 	Undetermined         bool // abandoned: outcome not determined by the documentation
 	Diverged             bool // RunWalk only: the functional oracle disagreed (C08's business), case abandoned
 	Walks                int  // VerifWalk calls made
@@ -106,9 +123,10 @@ func (i *item) GetExpiresAt() time.Time {
 
 // world is the harness-owned side of the callbacks.
 type world struct {
-	fail    bool
-	creates []string // canonical form of the pk of every create call of the current op
-	dels    []del    // delete callbacks of the current op
+	fail    bool     // outcome of the create call of the GetOrCreate that is about to be made
+	creates []string // canonical form of the pk of every create call of the current (innermost) call
+	dels    []del    // delete callbacks of the current (innermost) call
+	hook    func()   // run once by the next create call before it returns (executes the nested program)
 	nextVal int
 	lastErr error
 	nErr    int
@@ -117,7 +135,12 @@ type world struct {
 
 func (w *world) create(pk string) (int, error) {
 	w.creates = append(w.creates, pk)
-	if w.fail {
+	fail := w.fail
+	if h := w.hook; h != nil {
+		w.hook = nil
+		h() // nested calls on the same cache; they have their own callback lists
+	}
+	if fail {
 		w.nErr++
 		w.lastErr = fmt.Errorf("create failure #%d", w.nErr)
 		return -1, w.lastErr
@@ -295,7 +318,7 @@ func run(c Case, walk bool, info *Info) *vstat.Violation {
 	var m []entry       // reference LRU, least recently used first
 	deleted := []int{0} // ledger: deleted[valueID] = number of delete callbacks seen
 	hitSeen, failAfterHit := false, false
-	var prev []entry                     // the model before the current call (for messages only)
+	var top []entry                      // the model before the current top-level call (for messages only)
 	where := func() string { return "" } // lazy description of the current call
 	cleared, insertedAfterClear := false, false
 	epilogue := false
@@ -321,7 +344,7 @@ func run(c Case, walk bool, info *Info) *vstat.Violation {
 		b.WriteString("]")
 		return b.String()
 	}
-	fmtModel := func() string {
+	fmtModel := func(prev []entry) string {
 		var b strings.Builder
 		b.WriteString("LRU→MRU[")
 		for i, e := range prev {
@@ -449,9 +472,12 @@ func run(c Case, walk bool, info *Info) *vstat.Violation {
 	}
 
 	// insert does the model side of a successful creation and returns the expected delete callbacks.
-	insert := func(key int, pk string, val int) []del {
+	insert := func(key int, pk string, val int, lenAtMiss int) []del {
 		var want []del
 		if len(m) >= c.Cap {
+			if lenAtMiss >= 0 && lenAtMiss < c.Cap {
+				info.ReentrantWindow = true // nested calls filled the cache between the miss and the insertion
+			}
 			minVal := m[0].val
 			for _, e := range m {
 				minVal = min(minVal, e.val)
@@ -487,16 +513,59 @@ func run(c Case, walk bool, info *Info) *vstat.Violation {
 		return want
 	}
 
-	// getOrCreate executes one GetOrCreate against both sides.
-	getOrCreate := func(key, vr int, fail bool) (v *vstat.Violation, stop bool) {
-		w.fail = fail
+	// re-entrancy: state shared between a call and the calls its create function makes
+	var runNested func(prog []Op, stack []int)
+	var pendingV *vstat.Violation // first violation found inside a nested call
+	pendingStop := false          // a nested call ended in an undetermined state
+	shift := 0                    // key shift of the current repetition
+	blind := false
+
+	// getOrCreate executes one GetOrCreate against both sides. prog is the program the create function
+	// runs if this call reaches it; stack holds the keys whose creation is in progress around this call.
+	getOrCreate := func(key, vr int, fail bool, prog []Op, stack []int) (v *vstat.Violation, stop bool) {
 		pk := c.pkRepr(key, vr)
-		idx := find(key)
+		const (
+			hit = iota
+			staleHit
+			miss
+		)
+		kind := miss
+		var old entry
+		if idx := find(key); idx >= 0 {
+			old, kind = m[idx], hit
+			if old.it != nil && old.it.expired {
+				kind = staleHit
+			}
+		}
+		lenAtMiss := -1
+		w.fail = fail
+		w.hook = func() { // inside the create function, the cache lock is not held
+			if kind == hit {
+				return // a create call on a hit is reported below
+			}
+			if kind == staleHit {
+				// documented order (expirable.go): "remove from cache", then "call get or create again"
+				if i := find(key); i >= 0 {
+					dropAt(i)
+				}
+			}
+			lenAtMiss = len(m)
+			if len(prog) > 0 {
+				runNested(prog, append(stack, key))
+			}
+		}
 		got, err := s.get(key, vr)
-		switch {
-		case idx >= 0 && m[idx].it != nil && m[idx].it.expired:
+		w.hook = nil
+		if pendingV != nil {
+			return pendingV, true
+		}
+		if pendingStop {
+			return nil, true
+		}
+		switch kind {
+		case staleHit:
 			// expirable: resident but stale. Documented: "re-adds it to the cache by calling the createNewF".
-			stale := m[idx]
+			stale := old
 			if v := wantCreates(1, pk); v != nil {
 				return v, true
 			}
@@ -507,9 +576,8 @@ func run(c Case, walk bool, info *Info) *vstat.Violation {
 				if got != w.nextVal {
 					return vstat.V("lru:expired-wrong-value", "%s: stale #%d must be replaced by the new #%d, got #%d", where(), stale.val, w.nextVal, got), true
 				}
-				dropAt(idx)
-				want := append([]del{{stale.pk, stale.val}}, insert(key, pk, w.nextVal)...)
-				if v := wantDels("lru:expired-callbacks", want, true); v != nil {
+				want := append([]del{{stale.pk, stale.val}}, insert(key, pk, w.nextVal, lenAtMiss)...)
+				if v := wantDels("lru:expired-callbacks", want, false); v != nil {
 					return v, true
 				}
 				info.ExpiredReplaced = true
@@ -526,7 +594,6 @@ func run(c Case, walk bool, info *Info) *vstat.Violation {
 			// Whether the stale item is still resident after a failed re-creation is not determined by the
 			// documentation: accept "removed (callback once)" and follow it; abandon the case on "kept".
 			if !c.NoCB && len(w.dels) == 1 && w.dels[0] == (del{stale.pk, stale.val}) {
-				dropAt(idx)
 				info.ExpiredRecreateFail = true
 				return nil, false
 			}
@@ -535,25 +602,24 @@ func run(c Case, walk bool, info *Info) *vstat.Violation {
 			}
 			info.Undetermined = true
 			return nil, true
-		case idx >= 0:
+		case hit:
 			if v := wantCreates(0, pk); v != nil {
 				return v, true
 			}
 			if err != nil {
-				return vstat.V("lru:hit-error", "%s: key is resident (#%d) but GetOrCreate returned error %v", where(), m[idx].val, err), true
+				return vstat.V("lru:hit-error", "%s: key is resident (#%d) but GetOrCreate returned error %v", where(), old.val, err), true
 			}
-			if got != m[idx].val {
-				return vstat.V("lru:hit-wrong-value", "%s: key is resident with #%d but GetOrCreate returned #%d", where(), m[idx].val, got), true
+			if got != old.val {
+				return vstat.V("lru:hit-wrong-value", "%s: key is resident with #%d but GetOrCreate returned #%d", where(), old.val, got), true
 			}
 			if v := wantDels("lru:hit-callbacks", nil, true); v != nil {
 				return v, true
 			}
-			if m[idx].pk != pk {
+			if old.pk != pk {
 				info.CollideHit = true
 			}
-			e := m[idx]
-			dropAt(idx)
-			m = append(m, e)
+			dropAt(find(key))
+			m = append(m, old)
 			info.Hits++
 			hitSeen = true
 			if failAfterHit {
@@ -586,7 +652,7 @@ func run(c Case, walk bool, info *Info) *vstat.Violation {
 			if got != w.nextVal {
 				return vstat.V("lru:miss-wrong-value", "%s: created #%d but GetOrCreate returned #%d", where(), w.nextVal, got), true
 			}
-			want := insert(key, pk, w.nextVal)
+			want := insert(key, pk, w.nextVal, lenAtMiss)
 			if v := wantDels("lru:evict-callbacks", want, true); v != nil {
 				return v, true
 			}
@@ -618,15 +684,15 @@ func run(c Case, walk bool, info *Info) *vstat.Violation {
 	}
 
 	begin := func(desc func() string) {
-		prev = append(prev[:0], m...)
+		top = append(top[:0], m...)
 		where = desc
 		w.creates, w.dels, w.lastErr = w.creates[:0], w.dels[:0], nil
 	}
 	// functional side of one call of the list; stop = the model cannot follow any further
-	doOp := func(op Op, key, vr int) (v *vstat.Violation, stop bool) {
+	doOp := func(op Op, key, vr int, stack []int) (v *vstat.Violation, stop bool) {
 		switch op.K {
 		case "g":
-			if v, stop := getOrCreate(key, vr, op.Fail); v != nil || stop {
+			if v, stop := getOrCreate(key, vr, op.Fail, op.Nested, stack); v != nil || stop {
 				return v, true
 			}
 		case "r":
@@ -679,7 +745,6 @@ func run(c Case, walk bool, info *Info) *vstat.Violation {
 	}
 	// blind: once the model cannot follow (functional disagreement or undetermined outcome) a RunWalk case
 	// goes on making the calls without comparing anything but the structure of the recency list.
-	blind := false
 	goBlind := func(v *vstat.Violation) *vstat.Violation {
 		if !walk {
 			return v
@@ -688,18 +753,88 @@ func run(c Case, walk bool, info *Info) *vstat.Violation {
 			info.Diverged = true
 		}
 		blind = true
+		pendingV, pendingStop = nil, false
 		m = m[:0]
 		return structural()
 	}
-	blindOp := func(op Op, key, vr int) {
-		w.fail = op.Fail
+	blindOp := func(op Op, key, vr int, stack []int) {
 		switch op.K {
 		case "g":
+			w.fail = op.Fail
+			w.hook = func() {
+				if len(op.Nested) > 0 {
+					runNested(op.Nested, append(stack, key))
+				}
+			}
 			s.get(key, vr)
+			w.hook = nil
 		case "r":
 			s.remove(key, vr)
 		case "c":
 			s.clear()
+		}
+	}
+	// runNested is called from inside the create function of the GetOrCreate whose key is on top of stack.
+	runNested = func(prog []Op, stack []int) {
+		for i, nop := range prog {
+			if i >= MaxNested || pendingV != nil || pendingStop {
+				return
+			}
+			if nop.K != "g" && nop.K != "r" && nop.K != "c" {
+				continue
+			}
+			// the first key >= Key (cyclically) that is not in flight on this call stack
+			key, ok := 0, nop.K == "c"
+			base := ((nop.Key+shift)%nk + nk) % nk
+			for t := 0; t < nk && !ok; t++ {
+				key, ok = (base+t)%nk, true
+				for _, k := range stack {
+					if k == key {
+						ok = false
+					}
+				}
+			}
+			if !ok {
+				continue
+			}
+			vr := 0
+			if c.Shape == ShapeECache {
+				vr = ((nop.Var % NVariants) + NVariants) % NVariants
+			}
+			if len(stack) >= MaxDepth {
+				nop.Nested = nil
+			}
+			info.NestedCalls++
+			if len(stack) >= 2 {
+				info.NestedDepth2 = true
+			}
+			if blind {
+				blindOp(nop, key, vr, stack)
+				continue
+			}
+			// the nested call has its own create/delete-callback lists and its own description
+			sc, sd, sw := w.creates, w.dels, where
+			w.creates, w.dels = nil, nil
+			np := append([]entry(nil), m...)
+			where = func() string {
+				return fmt.Sprintf("nested call %s (before it: %s), made by the create function of {%s}", opString(c, nop, key, vr), fmtModel(np), sw())
+			}
+			v, stop := doOp(nop, key, vr, stack)
+			if len(np) != len(m) {
+				info.NestedChanged = true
+			} else {
+				for j := range np {
+					if np[j].val != m[j].val {
+						info.NestedChanged = true
+					}
+				}
+			}
+			w.creates, w.dels, where = sc, sd, sw
+			if v != nil {
+				pendingV = v
+			} else if stop {
+				pendingStop = true
+			}
 		}
 	}
 
@@ -711,7 +846,8 @@ func run(c Case, walk bool, info *Info) *vstat.Violation {
 	for r := 0; r < max(1, c.Repeat); r++ {
 		for j := range c.Ops {
 			op := c.Ops[j]
-			key := ((op.Key+r*c.Stride)%nk + nk) % nk
+			shift = r * c.Stride
+			key := ((op.Key+shift)%nk + nk) % nk
 			vr := 0
 			if c.Shape == ShapeECache {
 				vr = ((op.Var % NVariants) + NVariants) % NVariants
@@ -720,12 +856,12 @@ func run(c Case, walk bool, info *Info) *vstat.Violation {
 				begin(func() string {
 					return fmt.Sprintf("call #%d of %d %s [shape=%s cap=%d] (reference model abandoned earlier)", g, nops, opString(c, op, key, vr), c.Shape, c.Cap)
 				})
-				blindOp(op, key, vr)
+				blindOp(op, key, vr, nil)
 			} else {
 				begin(func() string {
-					return fmt.Sprintf("call #%d of %d %s [shape=%s cap=%d] before: %s", g, nops, opString(c, op, key, vr), c.Shape, c.Cap, fmtModel())
+					return fmt.Sprintf("call #%d of %d %s [shape=%s cap=%d] before: %s", g, nops, opString(c, op, key, vr), c.Shape, c.Cap, fmtModel(top))
 				})
-				if v, stop := doOp(op, key, vr); v != nil || stop {
+				if v, stop := doOp(op, key, vr, nil); v != nil || stop {
 					if !walk {
 						info.OpsDone = g
 						return v
@@ -749,6 +885,7 @@ func run(c Case, walk bool, info *Info) *vstat.Violation {
 	info.OpsDone = g
 
 	epilogue = true
+	shift = 0
 	// epilogue 1: Cap insertions of fresh keys; the i-th one must evict the i-th entry of the recency order
 	for i := 0; i < c.Cap; i++ {
 		key := 1000 + i
@@ -756,12 +893,12 @@ func run(c Case, walk bool, info *Info) *vstat.Violation {
 			begin(func() string {
 				return fmt.Sprintf("epilogue (after %d calls): GetOrCreate(fresh key %s) [shape=%s cap=%d] (reference model abandoned earlier)", g, keyName(key), c.Shape, c.Cap)
 			})
-			blindOp(Op{K: "g"}, key, 0)
+			blindOp(Op{K: "g"}, key, 0, nil)
 		} else {
 			begin(func() string {
-				return fmt.Sprintf("epilogue (after %d calls): GetOrCreate(fresh key %s) [shape=%s cap=%d] before: %s", g, keyName(key), c.Shape, c.Cap, fmtModel())
+				return fmt.Sprintf("epilogue (after %d calls): GetOrCreate(fresh key %s) [shape=%s cap=%d] before: %s", g, keyName(key), c.Shape, c.Cap, fmtModel(top))
 			})
-			v, _ := getOrCreate(key, 0, false)
+			v, _ := getOrCreate(key, 0, false, nil, nil)
 			if v == nil {
 				v = ledger()
 			}
@@ -783,11 +920,11 @@ func run(c Case, walk bool, info *Info) *vstat.Violation {
 		begin(func() string {
 			return fmt.Sprintf("epilogue (after %d calls): final Clear [shape=%s cap=%d] (reference model abandoned earlier)", g, c.Shape, c.Cap)
 		})
-		blindOp(Op{K: "c"}, 0, 0)
+		blindOp(Op{K: "c"}, 0, 0, nil)
 		return structural()
 	}
 	begin(func() string {
-		return fmt.Sprintf("epilogue (after %d calls): final Clear [shape=%s cap=%d] before: %s", g, c.Shape, c.Cap, fmtModel())
+		return fmt.Sprintf("epilogue (after %d calls): final Clear [shape=%s cap=%d] before: %s", g, c.Shape, c.Cap, fmtModel(top))
 	})
 	v := doClear()
 	if v == nil {
@@ -827,6 +964,9 @@ func opString(c Case, op Op, key, vr int) string {
 		if op.Fail {
 			out = "create→error"
 		}
+		if len(op.Nested) > 0 {
+			out = "create→{" + nestedString(op.Nested) + "}→" + out[len("create→"):]
+		}
 		return fmt.Sprintf("GetOrCreate(%s, %s)", c.pkRepr(key, vr), out)
 	case "r":
 		return fmt.Sprintf("Remove(%s)", c.pkRepr(key, vr))
@@ -836,6 +976,39 @@ func opString(c Case, op Op, key, vr int) string {
 		return fmt.Sprintf("expire-resident-item(position %d mod residents)", op.Key)
 	}
 	return op.K
+}
+
+// nestedString renders a nested program; its keys are resolved when it runs (first key index >= the
+// given one that is not in flight), so they are shown symbolically.
+func nestedString(prog []Op) string {
+	var b strings.Builder
+	for i, op := range prog {
+		if i > 0 {
+			b.WriteString("; ")
+		}
+		switch op.K {
+		case "g":
+			fmt.Fprintf(&b, "GetOrCreate(key>=%d", op.Key)
+			if op.Var != 0 {
+				fmt.Fprintf(&b, " variant %d", op.Var)
+			}
+			if len(op.Nested) > 0 {
+				b.WriteString(", create→{" + nestedString(op.Nested) + "}")
+			}
+			if op.Fail {
+				b.WriteString(", create→error)")
+			} else {
+				b.WriteString(", create→ok)")
+			}
+		case "r":
+			fmt.Fprintf(&b, "Remove(key>=%d)", op.Key)
+		case "c":
+			b.WriteString("Clear()")
+		default:
+			b.WriteString(op.K)
+		}
+	}
+	return b.String()
 }
 
 // Hash is a cheap FNV-1a hash of the case.
@@ -860,14 +1033,23 @@ func (c Case) Hash() uint64 {
 	mix(b)
 	mix(uint64(int64(c.Repeat)))
 	mix(uint64(int64(c.Stride)))
-	for _, o := range c.Ops {
-		x := uint64(o.K[0])
-		if o.Fail {
-			x |= 256
+	var ops func(l []Op)
+	ops = func(l []Op) {
+		for _, o := range l {
+			x := uint64(o.K[0])
+			if o.Fail {
+				x |= 256
+			}
+			mix(x)
+			mix(uint64(int64(o.Key))<<8 | uint64(uint8(o.Var)))
+			if len(o.Nested) > 0 {
+				mix(0x7b) // {
+				ops(o.Nested)
+				mix(0x7d) // }
+			}
 		}
-		mix(x)
-		mix(uint64(int64(o.Key))<<8 | uint64(uint8(o.Var)))
 	}
+	ops(c.Ops)
 	return h
 }
 
@@ -913,6 +1095,10 @@ func (i Info) Classes(c Case) []string {
 	add(i.ExpiredReplaced, "expirable_stale_replaced")
 	add(i.ExpiredRecreateFail, "expirable_stale_recreation_failed")
 	add(i.ExpiredEvicted, "expirable_stale_left_by_evict_remove_clear")
+	add(i.NestedCalls > 0, "reentrant_create_made_nested_calls")
+	add(i.NestedDepth2, "reentrant_depth_2")
+	add(i.NestedChanged, "reentrant_nested_call_changed_residents_or_order")
+	add(i.ReentrantWindow, "reentrant_cache_filled_between_miss_and_insertion")
 	add(i.Undetermined, "abandoned_undetermined")
 	add(i.Diverged, "abandoned_functional_divergence")
 	n := c.Len()
@@ -943,4 +1129,29 @@ func Alphabet(shape string, keys int) []Op {
 		}
 	}
 	return append(a, Op{K: "c"})
+}
+
+// ReentrantAlphabet is the extra part of the exhaustive alphabet with re-entrant create functions: per
+// key k, GetOrCreate(k) whose create function first runs one of a few programs on the following key(s).
+func ReentrantAlphabet(keys int) []Op {
+	var a []Op
+	for k := 0; k < keys; k++ {
+		n := k + 1 // resolved cyclically to a key that is not in flight
+		progs := [][]Op{
+			{{K: "g", Key: n}},
+			{{K: "g", Key: n, Fail: true}},
+			{{K: "r", Key: n}},
+		}
+		if keys > 2 {
+			progs = append(progs,
+				[]Op{{K: "g", Key: n, Nested: []Op{{K: "g", Key: n + 1}}}},
+				[]Op{{K: "g", Key: n}, {K: "g", Key: n + 1}},
+			)
+		}
+		for _, p := range progs {
+			a = append(a, Op{K: "g", Key: k, Nested: p})
+		}
+		a = append(a, Op{K: "g", Key: k, Fail: true, Nested: []Op{{K: "g", Key: n}}})
+	}
+	return a
 }
